@@ -35,7 +35,7 @@ def dispatch (ws : List String) : String :=
   | "raceprog" :: _ => "completed"
   | "c18holds" :: _ => (Driver.Leak.handle ws).getD "bad-op"
   | "c06holds" :: _ => (Driver.State.handle ws).getD "bad-op"
-  | "lcaccept" :: _ | "c07holds" :: _ => (Driver.Lifecycle.handle ws).getD "bad-op"
+  | "lcaccept" :: _ | "c07holds" :: _ | "c07liftholds" :: _ => (Driver.Lifecycle.handle ws).getD "bad-op"
   | _ => "bad-op"
 
 partial def loop (h : IO.FS.Stream) (out : IO.FS.Stream) : IO Unit := do
